@@ -449,8 +449,50 @@ func runC19(p *an.Prog, r *an.Run, tier string) {
 		if !okSvc {
 			bad = append(bad, "RemoteAddr() is not asked of the connection the request arrived on")
 		}
-		if s, ok := constStringThrough(nzCall.Common().Args[3]); !ok || s != "30303" {
-			bad = append(bad, "the default port is not the constant 30303")
+		// the default port: the constant 30303 — or, on some branch, a configured override that was first parsed
+		// successfully as a number (the value used is control-dependent on the success edge of a strconv parse);
+		// a configured value used unchecked can be empty or garbage (seed C19-6)
+		okPort := true
+		sawConst := false
+		var walkP func(v ssa.Value, depth int)
+		walkP = func(v ssa.Value, depth int) {
+			if depth > 4 {
+				okPort = false
+				return
+			}
+			if sv, ok := constStringThrough(v); ok {
+				if sv == "30303" {
+					sawConst = true
+				} else {
+					okPort = false
+				}
+				return
+			}
+			if ph, ok := v.(*ssa.Phi); ok {
+				for _, e := range ph.Edges {
+					walkP(e, depth+1)
+				}
+				return
+			}
+			// a parsed-and-reformatted override
+			parsed := false
+			for _, nd := range p.Derives(0, v).Nodes {
+				if c, ok := nd.(*ssa.Call); ok {
+					if f := an.CallObj(c); f != nil && f.Pkg() != nil && f.Pkg().Path() == "strconv" && (strings.HasPrefix(f.Name(), "Parse") || f.Name() == "Atoi") {
+						u := an.ErrEdges(c)
+						if ins, isIn := v.(ssa.Instruction); isIn && len(u.Succ) > 0 && !an.ReachAvoiding(conn, an.EdgeSet(u.Succ))[ins.Block()] {
+							parsed = true
+						}
+					}
+				}
+			}
+			if !parsed {
+				okPort = false
+			}
+		}
+		walkP(nzCall.Common().Args[3], 0)
+		if !okPort || !sawConst {
+			bad = append(bad, "the default port is not the constant 30303 (nor a configured override used only past a successful numeric parse, with 30303 as the fallback)")
 		}
 		dn := p.Derives(0, nzCall.Common().Args[0])
 		if !dn.HasFieldNamed("ConnectRequest", "NodeURI") {
